@@ -29,7 +29,7 @@
 int g_argc = 0;
 char **g_argv = NULL;
 
-#define TRACE_ENV "NANOLANG_VERIF_TRACE"
+#define TRACE_ENV "NANOLANG_VERIF_TRACE_LOADER"
 
 /* ------------------------------------------------------------------ helpers */
 static uint8_t *read_all(const char *path, size_t *len) {
